@@ -438,7 +438,7 @@ func render(v any) string {
 
 type spec struct {
 	name      string
-	shape     string // fan2 | fan3 | nested | tools
+	shape     string // fan2 | fan3 | nested | tools | tools-unknown | tools-fail | tools-stream | interrupt | sharedlambda | retrievers | start-end | before-first | start-branch-fails
 	undes     int    // number of undesignated per-call handlers
 	separate  bool   // passed as separate options (true) or as one option (false)
 	global    bool   // one global handler
@@ -1143,14 +1143,15 @@ func exec(ctx context.Context, r compose.Runnable[gprog.Val, gprog.Val], call st
 
 func main() {
 	c := harness.Init("C10")
-	c.Res.Rule = "scenario = graph shape (2 or 3 parallel lambdas, nested graph next to a lambda, tools node with two tool calls) x way of supplying handlers (global; 0-3 undesignated per-call handlers as ONE option or as SEPARATE options — the slice capacities differ; handlers designated to leaf nodes, to a sub-graph node, to an inner node by path, to the tools node) x handler kind (HandlerBuilder with timing checker / raw struct) x Invoke/Stream x what handlers do with stream payloads (drain, close at once, read one then close) x yields in node bodies; every interleaving of the executor goroutines, tool-call goroutines and the run loop within the preemption bound, both map orders; distinct/non-trivial = distinct scheduling signatures of scenarios with >= 2 of them"
+	c.Res.Rule = "scenario = graph shape (2 or 3 parallel lambdas, nested graph next to a lambda, tools node with two tool calls) x way of supplying handlers (global; 0-3 undesignated per-call handlers as ONE option or as SEPARATE options — the slice capacities differ; handlers designated to leaf nodes, to a sub-graph node, to an inner node by path, to the tools node) x handler kind (HandlerBuilder with timing checker / raw struct) x Invoke/Stream x what handlers do with stream payloads (drain, close at once, read one then close) x yields in node bodies x helper handler (none; ONE handler built with utils/callbacks.NewHandlerHelper out of typed Tool / ToolsNode / Retriever sub-handlers and Lambda / Graph sub-handlers, passed as one more per-call option, as a global handler, or designated to a node; sub-handler function sets full / pa / pb, the partial ones complementary: Tool with OnEnd only, a built Graph handler without stream functions, a Graph handler with ONLY stream functions, components without a sub-handler; extra shapes: a tool that fails, a tool that streams its answer); every interleaving of the executor goroutines, tool-call goroutines and the run loop within the preemption bound, both map orders; distinct/non-trivial = distinct scheduling signatures of scenarios with >= 2 of them"
 	c.Res.Assumptions = []string{
 		"sequential consistency at synchronisation granularity; node bodies are atomic between their explicit yields, framework code between two synchronisation operations is atomic",
 		"no happens-before state caching here: the shared mutable state this property is about (handler slices) is plain memory",
 		"a handler designated to a graph node or a tools node is allowed to fire for the units inside it (context inheritance, by design); 'only there' is demanded for leaf nodes and never for siblings or the parent",
+		"helper scenarios are explored up to preemption bound 2 in both tiers (the dispatch inside the helper handler is sequential code); a stream copy that a handler neither reads nor closes blocks nobody in these shapes (copies pull from their source on demand) and is therefore not observable by the leak verdict",
 		harness.RacePassAssumption,
 	}
-	c.Res.Explanation = "stateless exhaustive exploration of real graph runs with recording handlers; oracle per execution from the applicability relation: for every (handler, unit) applicable => exactly one start-type and one end-type event carrying that unit's name and the payload the unit consumed / produced, not applicable => no event; the flow result is unaffected by what handlers do with their stream copies; no hang, nothing left blocked. " + harness.RacePassExplanation
+	c.Res.Explanation = "stateless exhaustive exploration of real graph runs with recording handlers; oracle per execution from the applicability relation: for every (handler, unit) applicable => exactly one start-type and one end-type event carrying that unit's name and the payload the unit consumed / produced, not applicable => no event; the flow result is unaffected by what handlers do with their stream copies; no hang, nothing left blocked. Every event must also carry the component type of its unit in the run info. A sub-handler of the helper handler applies to the units of its component type inside the scope of the whole helper handler (everywhere / the designated node and what runs inside it): it must see exactly the events of those units for whose timing it has a function (start, end, error, stream start, stream end; the timing of a unit follows from the interface it runs through: graphs called with Stream report stream start / stream end, the tools node a plain start and in a streamed run a stream end, a streaming tool a stream end, everything else plain values), typed payloads rendered field-wise (tool arguments / response, retriever query / documents, the tools node's message list), never an event of a unit of another component type, and the run, its result and the leak / deadlock verdicts must be those of a run without it. " + harness.RacePassExplanation
 	quick := c.Quick()
 	rp := c.StartRacePass("./checks/c10") // worker 0 only: native -race build of this package, free runs of the scenario bodies
 	bounds := []int{0, 1, 2}
@@ -1219,7 +1220,24 @@ func main() {
 										// quick, helper handler: alone, or (per-call) next to one undesignated handler; no other
 										// designated / global handlers; the stream copies drained or closed at once
 										if quick && helper && !(desig == "" && !global && !raw && (undes == 0 || undes == 1 && hm.where == "call") &&
-											mod != "read1" && shape != "fan3" && shape != "sharedlambda") {
+											mod != "read1" && shape != "sharedlambda") {
+											continue
+										}
+										// the costly tool shapes whose dispatch differs from the plain tools shape in one tool call only
+										if quick && helper && shape == "tools-unknown" && !(hm.where == "call" && undes == 0) {
+											continue
+										}
+										if quick && helper && shape == "tools-stream" && !(undes == 0 && (hm.where == "call" || hm.where == "node" && hm.variant == "full")) {
+											continue
+										}
+										if helper && shape == "fan3" {
+											continue // the dispatch by component type does not depend on the number of parallel leaves (fan2)
+										}
+										// thorough, helper handler: next to 0, 1 or 3 separately passed undesignated handlers; the global
+										// and raw handlers of the other dimensions only with the per-call helper; designated handlers with
+										// the per-call and the designated helper
+										if !quick && helper && !((undes <= 1 || undes == 3 && separate) && (!global || hm.where == "call") &&
+											(!raw || hm.where == "call") && (desig == "" || hm.where != "global")) {
 											continue
 										}
 										sp := &spec{shape: shape, undes: undes, separate: separate, global: global, desig: desig, raw: raw, call: call, streamMod: mod, yields: true,
@@ -1228,7 +1246,11 @@ func main() {
 										if helper {
 											sp.name += fmt.Sprintf("/helper-%s-%s", hm.where, hm.variant)
 										}
-										sc := harness.Scenario{Name: sp.name, Bounds: bounds, MaxExecs: 1_000_000, New: sp.build,
+										scBounds := bounds
+										if helper {
+											scBounds = []int{0, 1, 2} // the helper's dispatch is sequential code: bound 2 in both tiers
+										}
+										sc := harness.Scenario{Name: sp.name, Bounds: scBounds, MaxExecs: 1_000_000, New: sp.build,
 											Signature: func(err error) string { return sigOf(sp, err) }}
 										if c.Replay != "" {
 											c.ReplayScenario(sc)
@@ -1237,7 +1259,7 @@ func main() {
 										if !c.Mine(sp.name) {
 											continue
 										}
-										c.Sample(map[string]any{"scenario": sp.name, "bounds": bounds})
+										c.Sample(map[string]any{"scenario": sp.name, "bounds": scBounds})
 										c.Add(sc)
 									}
 								}
